@@ -18,6 +18,10 @@ theorem facts_good_goroutines : Facts.resources.GoodGoroutines := by decide
 /-- Every edge the file half needs is in the source. -/
 theorem facts_good_files : Facts.resources.GoodFiles := by decide
 
+/-- `Client.Kill`'s clean-up is registered whenever a runner was recorded: no `return` above the
+`defer` other than the nothing-was-launched check, none inside the deferred func. -/
+theorem facts_good_kill : Facts.resources.GoodKill := by decide
+
 theorem holds_ledger_empty_files (L : Lib) (c : Cfg) (h : List Op) : leftFiles Facts.resources L c h = [] :=
   ledger_empty_files _ L c h facts_good_files
 
@@ -26,6 +30,16 @@ theorem holds_ledger_empty_goroutines (L : Lib) (c : Cfg) (h : List Op) : leftGo
 
 theorem holds_ledger_empty (L : Lib) (c : Cfg) (h : List Op) : ledgerAfter Facts.resources L c h = [] :=
   ledger_empty _ L c h ⟨facts_good_files, facts_good_goroutines⟩
+
+/-- whatever the plugin's state when `Kill` is called (running, or already shut down through
+`ClientProtocol.Close()` and exited): no file, no socket directory, no goroutine entry remains -/
+theorem holds_ledger_empty_files_any_state (L : Lib) (c : Cfg) (h : List Op) (k : AtKill) :
+    leftFilesK Facts.resources L c h k = [] :=
+  ledger_empty_files_any_state _ L c h k facts_good_files facts_good_kill
+
+theorem holds_ledger_empty_goroutines_any_state (L : Lib) (c : Cfg) (h : List Op) (k : AtKill) :
+    leftGoroutinesK Facts.resources L c h k = [] :=
+  ledger_empty_goroutines_any_state _ L c h k facts_good_goroutines facts_good_kill
 
 theorem holds_plugin_exits_gracefully (c : Cfg) : pluginDone Facts.resources c = true :=
   plugin_exits_gracefully _ c facts_good_files
